@@ -27,8 +27,16 @@ func Initialize(cfg *config.Metrics) (Provider, error) {
 	if prefix, err = parsePrefix(cfg.Prefix); err != nil {
 		return nil, fmt.Errorf("metrics: invalid Prefix template: %w", err)
 	}
+	seen := map[string]bool{}
 	for _, x := range strings.Split(cfg.Target, ",") {
 		x = strings.TrimSpace(x)
+		// a back end which is listed twice is still one back end. Two
+		// prometheus providers would register every metric twice which
+		// panics in the prometheus client.
+		if seen[x] {
+			continue
+		}
+		seen[x] = true
 		switch x {
 		case "flat", "stdout":
 			p = append(p, &flatProvider{prefix})
